@@ -48,7 +48,7 @@ PROPS = {
         "rule": ("one run = tape-generated workload (1-4 recorder tasks x 1-10 Record calls over 1-4 devices, "
                  "1-2 refresher tasks x 1-4 Refresh calls, upload outcome per attempt) executed under a "
                  "tape-chosen interleaving with yields before every Record/Refresh, before every mutex "
-                 "acquisition inside billstat and while each Upload is in flight; a run is non-trivial when "
+                 "acquisition inside billstat, inside every call of the metrics collector and while each Upload is in flight; one refresh in eight starts with a finished context, one successful upload in eight ends the caller's context as it accepts the batch; a run is non-trivial when "
                  "the scheduler preempted a runnable task at least once or an upload failure fired; distinct "
                  "= distinct hash of the full decision sequence (workload + schedule + faults); failed uploads fail as a "
                  "service error, an exceeded deadline, a cancellation or a broken connection.  bpbsim part: the real gRPC "
@@ -149,7 +149,7 @@ PROPS = {
                  "decision sequence.  sysim part: the rate-limiting stage of the real dnssvc handler stack (ratelimitmw) with the "
                  "real global Backoff and real per-profile limiters (one profile without a limit of its own, one with a limit "
                  "0-3/s for all clients, one with a limit for two client subnets; response-size estimates 100/250), 3-40 "
-                 "requests from anonymous clients and devices (EDNS CPE-ID on plain DNS, TLS server name on DoT), gaps around "
+                 "requests from anonymous clients and devices (EDNS CPE-ID on plain DNS, TLS server name on DoT), responses whose bulk is in the answer, authority or additional section, gaps around "
                  "the 1 s profile window and the global interval; reference = sliding-window log per global subnet key and per "
                  "profile; a dropped query must not reach the upstream"),
         "assumptions": [
@@ -173,7 +173,7 @@ PROPS = {
         "rule": ("one run = cache configuration (simple dnsserver/cache middleware, or the ECS cache inside the full handler "
                  "stack; min-TTL override on/off) and a history of 3-40 queries over a per-run subset of 18 scripted names "
                  "(answers with per-record TTLs 0,2,5,30,300,2^31; CNAME chain; NODATA with/without SOA, SOA.MINIMUM below/"
-                 "above TTL; NXDOMAIN; SERVFAIL; REFUSED; truncated; AD; RRSIG under DO; ECS-scoped), qtypes, classes, case, "
+                 "above TTL; NXDOMAIN; SERVFAIL; REFUSED; truncated; AD; RRSIG under DO; ECS-scoped; glue records; extended errors; pairs of names that differ in one non-letter octet 0x20 apart), qtypes, classes, case, "
                  "DO/AD/CD, ECS options and clients, separated by clock advances from {0, .1, .4, .5, .6, 1s, TTL-.6, TTL-.4, "
                  "TTL-1ns, TTL, TTL+1ns, 2TTL, 29s, 31s, 5min}; every answer served without an upstream call is compared "
                  "with a freshly started twin asked at the same instant; non-trivial = at least one cache hit; distinct = "
@@ -197,7 +197,7 @@ PROPS = {
         "thorough": {"seconds": 900, "chunk": 10000},
         "rule": ("one run = ECS cache inside the full handler stack; 3-40 queries from a per-run subset of 7 clients (IPv4/IPv6, "
                  "locations known, unknown, known without a subnet for the family) with ECS option absent / own prefix / "
-                 "foreign prefix / own address / other family / zero-length / malformed (bad family, bits beyond prefix, mask "
+                 "foreign prefix / own address / other family / zero-length / a valid option followed by a second one with the client's own address (the scripted upstream looks at every option it gets) / malformed (bad family, family zero, bits beyond prefix, mask "
                  "too long), for names the upstream scopes to the subnet and names it does not, in all arrival orders and "
                  "cache ages; upstream answers are tagged with the subnet they were computed for; the coarse subnets of the table have "
                  "prefix lengths that are not multiples of eight and differ inside one octet; geofile sub-batch: the real geoip.File "
@@ -264,9 +264,9 @@ PROPS = {
         "thorough": {"seconds": 1200, "chunk": 400, "kill_after": 600},
         "rule": ("one run = two identically configured groups of servers (UDP, TCP, DoT, DoH, DoQ each) in one bubble; group A "
                  "first serves a history of 1-12 victim queries (unique token names, sizes 30-750 bytes) on every transport so "
-                 "that its pooled receive buffers hold their bytes (GC off, one P); then one probe - header only with QDCOUNT=1, "
+                 "that its pooled receive buffers hold their bytes (GC off, one P), a quarter of the DoH uploads being given up before their announced end; then one probe - header only with QDCOUNT=1, "
                  "cut at any offset, ANCOUNT/QDCOUNT/ARCOUNT exceeding the data, cut inside a label; on streams also a length "
-                 "prefix larger or smaller than the payload - goes to A and to the fresh group B; in a share of the runs (tape-chosen) the plain-DNS and DoT servers listen through the real interface listeners of internal/bindtodevice (channel sizes 1, 4 or 64) on simulated sockets; every run is non-trivial; "
+                 "prefix larger or smaller than the payload, the DoQ stream written in one to six pieces - goes to A and to the fresh group B; in a share of the runs (tape-chosen) the plain-DNS and DoT servers listen through the real interface listeners of internal/bindtodevice (channel sizes 1, 4 or 64) on simulated sockets; every run is non-trivial; "
                  "distinct = distinct decision-sequence hash"),
         "assumptions": [
             "buffer reuse is made likely, not certain: sync.Pool on one P with the collector off; the evidence counts history messages, not confirmed reuses",
@@ -345,7 +345,7 @@ PROPS = {
         "det_runs": 12,
         "quick": {"seconds": 30, "chunk": 2000, "runs": 100000},
         "thorough": {"seconds": 900, "chunk": 8000},
-        "rule": 'one run = a universe of 3 profiles (one possibly deleted) and 6 devices (attached/detached; auth off, on with/without password, DoH-only with/without password; linked IPs; dedicated IPs) in the real profile DB, 7 servers (plain DNS with linked IP on/off, plain DNS bound to an interface with dedicated addresses, DoT, DoH, DoQ, DNSCrypt) and 4-40 requests whose identifier travels by URL path, basic-auth user with absent/right/wrong/empty password, TLS server name (exact, upper case, nested label, other domain, bare domain), EDNS CPE-ID, dedicated local address or linked client address - also on the wrong transport and with path and credentials of different devices; human-readable identifiers for existing, unknown and to-be-created devices with automatic devices on/off; server names that merely end with the device domain; non-trivial = at least one device recognised; distinct = distinct decision-sequence hash.  wire part: real DoT, DoH (HTTP/1.1, HTTP/2 and HTTP/3) and DoQ servers on the simulated network (immediate or timed with segmentation); 4-20 requests with server names, URL paths and basic-auth credentials from small sets, requests with the same transport and server name share a connection (HTTP/2 requests overlap on it); the handler records the request information it is given and every field must equal what the client sent with that request',
+        "rule": 'one run = a universe of 3 profiles (one possibly deleted) and 6 devices (attached/detached; auth off, on with/without password, DoH-only with/without password; linked IPs; dedicated IPs) in the real profile DB, 7 servers (plain DNS with linked IP on/off, plain DNS bound to an interface with dedicated addresses, DoT, DoH, DoQ, DNSCrypt) and 4-40 requests whose identifier travels by URL path, basic-auth user with absent/right/wrong/empty password, TLS server name (exact, upper case, nested label, other domain, bare domain), EDNS CPE-ID, dedicated local address or linked client address - also on the wrong transport and with path and credentials of different devices; human-readable identifiers for existing, unknown and to-be-created devices with automatic devices on/off; server names that merely end with the device domain; now and then the backend changes and the database synchronises (a profile deleted or restored, a device detached, given other authentication settings or moved to another profile); non-trivial = at least one device recognised; distinct = distinct decision-sequence hash.  wire part: real DoT, DoH (HTTP/1.1, HTTP/2 and HTTP/3) and DoQ servers on the simulated network (immediate or timed with segmentation); 4-20 requests with server names, URL paths and basic-auth credentials from small sets, requests with the same transport and server name share a connection (HTTP/2 requests overlap on it); the handler records the request information it is given and every field must equal what the client sent with that request',
         "assumptions": ['the reference (identify) is written from the statement and doc/; a malformed identifier may be answered with an error, the statement only demands that nobody is recognised', 'human-readable identifiers (<type>-<profile>-<name> in the URL path or TLS server name) are generated in normal form only; devices created on demand come from an idempotent backend stub', 'two parts compose: the wire part shows that the encrypted transports hand the handler exactly the server name, URL path and credentials the client sent with that request; the sysim part injects such values into dnsserver.RequestInfo and judges the decision'],
         "components": {
             "real": ["dnssvc.NewHandlers stack: initial, ratelimitmw (request info, device finding, access checks, rate-limit gate), preservice, mainmw (filtering, recording), preupstream, ecscache", "internal/dnssvc/internal/devicefinder", "internal/profiledb.Default (fed once by a stub storage)", "internal/access Global and DefaultProfile", "agdpasswd bcrypt authenticator"],
@@ -359,7 +359,7 @@ PROPS = {
         "cfgs": [""],
         "quick": {"seconds": 30, "chunk": 2000, "runs": 100000},
         "thorough": {"seconds": 900, "chunk": 8000},
-        "rule": "same world; client addresses inside/outside the globally blocked subnet, inside a profile's blocked subnet and its allowed sub-range, with blocked and allowed ASNs; names matching global and per-profile rules (exact, ||domain^, $dnstype=AAAA) and unique harmless names; per-profile access settings drawn per run (blocked/allowed nets, ASN lists with extra systems in tape-chosen order, name rules); after an access-blocked request the same name is asked again by an allowed client and must reach the upstream; non-trivial = at least one access-blocked request; distinct = distinct decision-sequence hash",
+        "rule": "same world; client addresses inside/outside the globally blocked subnet, inside a profile's blocked subnet and its allowed sub-range (networks also written with an address inside them instead of their first), with blocked and allowed ASNs; names matching global and per-profile rules (exact, ||domain^, $dnstype=AAAA) and unique harmless names; per-profile access settings drawn per run (blocked/allowed nets, ASN lists with extra systems in tape-chosen order, name rules); after an access-blocked request the same name is asked again by an allowed client and must reach the upstream; non-trivial = at least one access-blocked request; distinct = distinct decision-sequence hash",
         "assumptions": ['the blocked predicate is written from the statement (global IP, global name, then profile: allowed subnet/ASN overrides blocked subnet/ASN, name rules)', 'requests dropped for other reasons (rate limit, unknown dedicated address) are not judged here'],
         "components": {
             "real": ["dnssvc.NewHandlers stack: initial, ratelimitmw (request info, device finding, access checks, rate-limit gate), preservice, mainmw (filtering, recording), preupstream, ecscache", "internal/dnssvc/internal/devicefinder", "internal/profiledb.Default (fed once by a stub storage)", "internal/access Global and DefaultProfile", "agdpasswd bcrypt authenticator"],
@@ -374,7 +374,7 @@ PROPS = {
         ],
         "quick": {"seconds": 30, "chunk": 2000, "runs": 100000},
         "thorough": {"seconds": 900, "chunk": 8000},
-        "rule": "same world with profiles' query-log and IP-log flags drawn per run; outcomes: allowed, blocked by a request rule, blocked by a response rule, dropped by the rate limiter, access-blocked, unknown dedicated address, anonymous; recording query log and billing recorder; non-trivial = at least one attributed request; distinct = distinct decision-sequence hash",
+        "rule": "same world with profiles' query-log and IP-log flags drawn per run; upstream answers NOERROR, NXDOMAIN, SERVFAIL, REFUSED, BADVERS or BADCOOKIE; outcomes: allowed, blocked by a request rule, blocked by a response rule, dropped by the rate limiter, access-blocked, unknown dedicated address, anonymous; recording query log and billing recorder; non-trivial = at least one attributed request; distinct = distinct decision-sequence hash",
         "assumptions": ['intact single-line JSON records under concurrent writers are checked by the qlogsim part on the real querylog.FileSystem', 'entry fields compared: name, type, rcode, request/response rule, protocol, device, profile, client address'],
         "components": {
             "real": ["dnssvc.NewHandlers stack: initial, ratelimitmw (request info, device finding, access checks, rate-limit gate), preservice, mainmw (filtering, recording), preupstream, ecscache", "internal/dnssvc/internal/devicefinder", "internal/profiledb.Default (fed once by a stub storage)", "internal/access Global and DefaultProfile", "agdpasswd bcrypt authenticator"],
@@ -390,7 +390,7 @@ PROPS = {
         "quick": {"seconds": 45, "chunk": 400, "runs": 12000},
         "thorough": {"seconds": 1200, "chunk": 1500},
         "level": "exploration",
-        "rule": ("one run = real filter storage (1-3 rule lists from an index with a sprinkling of invalid entries, blocked-service "
+        "rule": ("one run = real filter storage (1-3 rule lists from an index with a sprinkling of invalid entries - empty or foreign-scheme URLs, bad keys, duplicates, records lacking a field altogether at any position; keys only invalid records carry must name no list -, blocked-service "
                  "index, three hash-prefix filters) downloading version r of every resource in round r = 1..5 from the simulated "
                  "origin; per download a fault from {connection error, stall past the timeout, 404, 500, empty body, body over the "
                  "size limit, body cut after k bytes, slow body in chunks, the whole resource followed by a line of 70000 octets (over every "
@@ -442,8 +442,8 @@ PROPS = {
         "rule": ("one run = storage A (all result caches on) and a stateless twin B (caches off or emptied before every request) "
                  "loading the same list versions; 2-4 requesters with different blocking modes (null IP, custom IP, NXDOMAIN, "
                  "REFUSED), filtered TTLs, rule-list subsets, custom rules, blocked services, safe-browsing/parental switches "
-                 "asking the same (host, qtype) keys in every order, interleaved with list refreshes that change verdicts and "
-                 "custom-rule updates; sub-batch 'replip' = hash-prefix filters answering with an IP address (response built with "
+                 "asking the same (host, qtype) keys in every order (types A, AAAA, HTTPS, TXT, MX, CAA and the types above 255 that share the low octet of the first three), interleaved with list refreshes that change verdicts and "
+                 "custom-rule updates whose time stamp moves by a minute, 300 ms or 1 ns; sub-batch 'replip' = hash-prefix filters answering with an IP address (response built with "
                  "the requester's own message constructor); sub-batch 'conc' = a refresher task and 1-3 query tasks with yields "
                  "before every lock and every result-cache get/set/clear inside rulelist, hashprefix and filterstorage; "
                  "non-trivial = a request was filtered; distinct = distinct decision hash"),
